@@ -401,10 +401,10 @@ func c01HeaderWriters(p *P, r *R, fr freeListRoles) {
 	}
 	// frozen table (confirmed by reading): who may mutate a slot header, one reason per entry
 	for _, m := range headerMutators {
-		add(m, holder...)                             // popper: the slot it just won; pusher: old tail it swung; creator: before publication
-		add(m, "(*bufferSlice).update")               // writer stamps its own slice on done()
-		add(m, "(*bufferSlice).reset")                // reset of a slice owned by the caller (pusher / reuse)
-		add(m, "(*pendingData).moveToWithoutLock")    // receiver re-links the chain it was handed
+		add(m, holder...)                          // popper: the slot it just won; pusher: old tail it swung; creator: before publication
+		add(m, "(*bufferSlice).update")            // writer stamps its own slice on done()
+		add(m, "(*bufferSlice).reset")             // reset of a slice owned by the caller (pusher / reuse)
+		add(m, "(*pendingData).moveToWithoutLock") // receiver re-links the chain it was handed
 	}
 	add("(*bufferSlice).update", "(*linkedBuffer).done")
 	add("(*bufferSlice).reset", "(*linkedBuffer).releasePreviousReadAndReserve")
